@@ -163,6 +163,10 @@ def rule_errd(crate, scope_fns, scope_files, exempt=None, min_fallible=8, lib_pr
             if t.startswith("std::result::Result<") and err_type in t:
                 n_fallible += 1
                 verdict, why = classify_consumer(n, pm, crate)
+                exf = exempt.get((short, "fallible:" + leaf))
+                if verdict == "violation" and exf:
+                    out.exempt(key, f, l, exf["reason"])
+                    continue
                 if verdict == "ok":
                     out.ok(key, f, l, "%s -> %s" % (leaf, why))
                 elif verdict == "violation":
